@@ -85,7 +85,7 @@ pub fn execute_bytecode_sync_with<E: Effect>(
 
     // Execute until completion
     loop {
-        let (_did_work, _action) = executor.step(1000, 0);
+        let (did_work, _action) = executor.step(1000, 0);
 
         let process = executor
             .get_process(process_id)
@@ -107,6 +107,16 @@ pub fn execute_bytecode_sync_with<E: Effect>(
                 }
                 Err(e) => return Err(e.clone()),
             }
+        }
+
+        // Nothing ran and there is no result: the process waits for a message, a timer, another
+        // process or an effect. There is no environment here (and the clock stands still), so it
+        // would wait for ever.
+        if !did_work {
+            return Err(Error::OperationNotAllowed {
+                operation: "spawn, send, select or effect".to_string(),
+                context: "synchronous execution".to_string(),
+            });
         }
     }
 }
